@@ -9,6 +9,7 @@ package c17
 import (
 	"encoding/hex"
 	"fmt"
+	"math"
 	"regexp"
 	"strconv"
 	"strings"
@@ -44,12 +45,13 @@ func init() {
 			}
 			return false
 		},
-		Rule:     "one subject string and 1..8 independent calls on it. Streams: mixed = 0..9 fragments of {a,B,_,1,é,你,😀,\\xff,\\xe4\\xbd}; edge = the same mixed 50/50 with boundary scalars of every encoded length (U+7F,U+80,U+7FF,U+800,U+D7FF,U+E000,U+FFFD,U+FFFF,U+10000,U+10FFFF) and malformed sequences (lone continuation, truncated 2/3/4-byte, overlong, surrogate, >U+10FFFF, 0xf8); ident = words of the grammar [a-z][a-z0-9]*(_[a-z][a-z0-9]*)*; ident-mutated = one insertion of _,A,Z,1,é,你,\\xff,_1 into such a word. Arguments 0..runeCount+3 (35% within ±1..3 of the end), -1 for Sub's length, 2% negative (correspondence only). Corpus: every string of ≤ 3 fragments with every in-scope argument. Non-trivial = the subject contains a multi-byte rune or an invalid byte, or is a grammar identifier with at least one underscore; distinct by hash of subject+ops",
+		Rule:     "one subject string and 1..8 independent calls on it. Streams: mixed = 0..9 fragments of {a,B,_,1,é,你,😀,\\xff,\\xe4\\xbd}; edge = the same mixed 50/50 with boundary scalars of every encoded length (U+7F,U+80,U+7FF,U+800,U+D7FF,U+E000,U+FFFD,U+FFFF,U+10000,U+10FFFF) and malformed sequences (lone continuation, truncated 2/3/4-byte, overlong, surrogate, >U+10FFFF, 0xf8); ident = words of the grammar [a-z][a-z0-9]*(_[a-z][a-z0-9]*)*; ident-mutated = one insertion of _,A,Z,1,é,你,\\xff,_1 into such a word. Arguments 0..runeCount+3 (30% within ±1..3 of the end, 30% in the lower half so that sums stay inside), 4% huge (MaxInt64-k, MaxInt64/2+k, MaxInt64-runeCount-k, 2^31..2^62: sums wrap around in int), -1 for Sub's length, 2% negative (correspondence only). Corpus: every string of ≤ 3 fragments with every in-scope argument. Non-trivial = the subject contains a multi-byte rune or an invalid byte, or is a grammar identifier with at least one underscore; distinct by hash of subject+ops",
 		Classify: classify,
 		Parallel: true,
+		Extras:   []core.Extra{Utf8TieExtra()},
 		Assumptions: []string{
-			"Go int treated as unbounded (no argument near 2^63); strings.Repeat never exhausts memory for non-negative arguments (mask length ≤ rune count)",
-			"lean/Golib/Prelude/Utf8.lean equals unicode/utf8 (DecodeRuneInString, RuneCountInString, RuneLen, the range loop, WriteRune): compared with the standard library through every call of every run",
+			"Go int = int64: arguments up to MaxInt64 are generated; for Mask the theorem c17_mask_int64_exact shows the repaired code never wraps, Sub/SubByDisplay only compare (a wrapped start+length is negative, hence != count like the exact sum); strings.Repeat never exhausts memory (mask count <= rune count)",
+			"lean/Golib/Prelude/Utf8.lean equals unicode/utf8 (DecodeRuneInString, RuneCountInString, RuneLen, the range loop, WriteRune): compared with the standard library exhaustively on every run (extra utf8-prelude-exhaustive-tie: all inputs of <= 2 bytes, all 3-byte inputs with a multi-byte leader, boundary-complete 4-byte inputs, every int32 rune around the scalar range) and through every differential call",
 		},
 	})
 }
@@ -119,6 +121,13 @@ func corpus() []core.Case {
 	cs := []core.Case{
 		// F9 (DESIGN §6): SubByDisplay advances by RuneLen(U+FFFD)=3 for a 1-byte invalid sequence
 		mk("\xff\xff\xff\xff\xff", "subd 4"),
+		// F15: l-start-end wrapped around in int (panic in strings.Repeat / wrong result)
+		mk("abc", "mask 2a 9223372036854775807 5", "mask 2a 9223372036854775807 9223372036854775807",
+			"mask 2a 9223372036854775806 3", "mask 2a23 4611686018427387904 4611686018427387907", "mask 2a 5 9223372036854775807",
+			"mask 2a 9223372036854775807 0", "mask 2a 0 9223372036854775807", "mask - 9223372036854775805 9223372036854775807",
+			"sub 9223372036854775807 9223372036854775807", "sub 1 9223372036854775807", "sub 9223372036854775807 -1", "sub 0 9223372036854775807",
+			"sub 2 9223372036854775806", "subd 9223372036854775807", "subd 4611686018427387904"),
+		mk("a你😀\xffb", "mask 2a 9223372036854775807 5", "mask e4bda0 9223372036854775804 9", "sub 3 9223372036854775805", "subd 9223372036854775807"),
 		mk("", allOps("")...),
 		mk("a\xffb", "subd 2", "subd 1", "sub 1 1", "rev", "remove "+hx("�")),
 		mk("foo_bar_x1", "round true", "round false", "s2c true", "s2c false", "c2s"),
@@ -203,8 +212,26 @@ func gen(r *core.Rand, tier string) core.Case {
 		if r.Chance(2) {
 			return -r.Range(1, 3) // outside the property's scope: correspondence only
 		}
-		if r.Chance(35) {
+		if r.Chance(4) {
+			// far beyond the rune count, up to MaxInt64: sums of two arguments wrap around in int
+			switch r.Pick(3, 3, 2, 1, 1) {
+			case 0:
+				return math.MaxInt64 - r.Range(0, n+3)
+			case 1:
+				return math.MaxInt64/2 + r.Range(0, n+4)
+			case 2:
+				return math.MaxInt64 - n - r.Range(0, 3)
+			case 3:
+				return 1 << uint(r.Range(31, 62))
+			default:
+				return math.MaxInt32 + r.Range(-1, 2)
+			}
+		}
+		if r.Chance(30) {
 			return r.Range(n-1, n+3) // around and beyond the end
+		}
+		if r.Chance(45) {
+			return r.Range(0, (n+1)/2) // small enough that start+end / start+length stay inside
 		}
 		return r.Range(0, n+3)
 	}
@@ -249,6 +276,8 @@ func gen(r *core.Rand, tier string) core.Case {
 			}
 			if r.Chance(2) {
 				lim = -r.Range(1, 3)
+			} else if r.Chance(3) {
+				lim = arg()
 			}
 			lines = append(lines, fmt.Sprintf("subd %d", lim))
 		case 3:
@@ -460,7 +489,7 @@ func check(c core.Case, out []string) *core.Failure {
 			switch {
 			case st >= n:
 				want = ""
-			case ln == -1 || st+ln > n:
+			case ln == -1 || ln > n-st: // (not st+ln > n: the arguments go up to MaxInt64)
 				want = string(rs[st:])
 			default:
 				want = string(rs[st : st+ln])
@@ -473,10 +502,10 @@ func check(c core.Case, out []string) *core.Failure {
 			}
 			ms := []rune(m)
 			st, en := args[0], args[1]
-			ml := n - st - en
-			if ml <= 0 {
+			if st >= n || en >= n || en >= n-st { // first `st` and last `en` runes cover everything (no sum: arguments go up to MaxInt64)
 				want = s
 			} else {
+				ml := n - st - en
 				mid := m
 				if len(ms) == 1 {
 					mid = strings.Repeat(m, ml)
@@ -552,6 +581,9 @@ func classify(c core.Case, out []string) []string {
 		case "sub":
 			a, _ := strconv.Atoi(t[1])
 			b, _ := strconv.Atoi(t[2])
+			if a > math.MaxInt32 || b > math.MaxInt32 {
+				ls = append(ls, "sub:huge-arg")
+			}
 			switch {
 			case a < 0 || b < -1:
 				ls = append(ls, "sub:negative-arg")
@@ -559,7 +591,7 @@ func classify(c core.Case, out []string) []string {
 				ls = append(ls, "sub:start-beyond-end")
 			case b == -1:
 				ls = append(ls, "sub:to-end")
-			case a+b > n:
+			case b > n-a:
 				ls = append(ls, "sub:length-beyond-end")
 			case a+b == n:
 				ls = append(ls, "sub:ends-exactly-at-end")
@@ -570,11 +602,20 @@ func classify(c core.Case, out []string) []string {
 			a, _ := strconv.Atoi(t[2])
 			b, _ := strconv.Atoi(t[3])
 			m, _ := unhx(t[1])
+			if a > math.MaxInt32 || b > math.MaxInt32 {
+				ls = append(ls, "mask:huge-arg")
+				if a > math.MaxInt64-b {
+					ls = append(ls, "mask:start+end-overflows-int")
+				}
+			}
+			multi := utf8.RuneCountInString(m) != 1
 			switch {
 			case a < 0 || b < 0:
 				ls = append(ls, "mask:negative-arg")
-			case n-a-b <= 0:
+			case a >= n || b >= n || b >= n-a:
 				ls = append(ls, "mask:nothing-to-mask")
+			case multi && a > 0 && b > 0:
+				ls = append(ls, "mask:inner-multi-rune-mask")
 			case a == 0 && b == 0:
 				ls = append(ls, "mask:whole")
 			case b == 0:
@@ -591,6 +632,9 @@ func classify(c core.Case, out []string) []string {
 			}
 		case "subd":
 			a, _ := strconv.Atoi(t[1])
+			if a > math.MaxInt32 {
+				ls = append(ls, "subd:huge-arg")
+			}
 			switch {
 			case a < 0:
 				ls = append(ls, "subd:negative-arg")
@@ -612,6 +656,14 @@ func classify(c core.Case, out []string) []string {
 				ls = append(ls, t[0]+":unchanged")
 			} else {
 				ls = append(ls, t[0]+":changed")
+				// non-ASCII identifiers (multi-byte runes / invalid bytes between the re-cased letters):
+				// only exercised, not characterised by a theorem
+				for j := 0; j < len(s); j++ {
+					if s[j] >= utf8.RuneSelf {
+						ls = append(ls, t[0]+":changed-non-ascii-subject")
+						break
+					}
+				}
 			}
 		}
 	}
